@@ -235,7 +235,14 @@ func genHistory(r *rng, maxOps int) rhistory {
 			h.ops = append(h.ops, rop{op: "rp"})
 		case k < 90:
 			if alt {
-				w, hh = ws[r.intn(len(ws))], hs[r.intn(len(hs))]
+				nw, nh := ws[r.intn(len(ws))], hs[r.intn(len(hs))]
+				switch r.intn(4) { // half of the resizes change one dimension only
+				case 0:
+					nw = w
+				case 1:
+					nh = hh
+				}
+				w, hh = nw, nh
 				h.ops = append(h.ops, rop{op: "size", w: w, h: hh})
 			}
 		default:
